@@ -317,9 +317,8 @@ end TenpyModel.C02
 
 /-- `take_slice` keeps `_qdata_sorted`: the removed columns are constant on the kept rows, so the order of the rows
 is decided by the remaining columns exactly as before; `qtotal` loses the charges of the fixed indices.
-(`hnd`: the axes are distinct — the code does not check this.) -/
+(The axes must be distinct: checked by the repaired code; the code under test does not, see the known finding.) -/
 theorem C02_WF_takeSlice (a : ArrS) (indices axes : List Int) (b : ArrS) (h : a.WF)
-    (hnd : ∀ axn, axes.mapM a.legIndex = some axn → axn.Nodup)
     (hb : a.takeSlice indices axes = some b) : b.WF := by
   rw [WF_iff] at *
   unfold ArrS.takeSlice at hb
@@ -331,10 +330,14 @@ theorem C02_WF_takeSlice (a : ArrS) (indices axes : List Int) (b : ArrS) (h : a.
     · cases hb
     · rename_i hlen
       split at hb
-      · cases hb; exact h
-      · cases hpos : (axn.zip indices).mapM (fun ai => (a.legAt ai.1).getQindex ai.2) with
-        | none => simp [hpos] at hb
-        | some pos =>
+      · cases hb
+      · rename_i hnd0
+        have hnd : axn.Nodup := by simpa using hnd0
+        split at hb
+        · cases hb; exact h
+        · cases hpos : (axn.zip indices).mapM (fun ai => (a.legAt ai.1).getQindex ai.2) with
+          | none => simp [hpos] at hb
+          | some pos =>
           simp only [hpos] at hb
           split at hb
           · cases hb
@@ -347,7 +350,7 @@ theorem C02_WF_takeSlice (a : ArrS) (indices axes : List Int) (b : ArrS) (h : a.
             have hlen' : axn.length = indices.length := by simpa using hlen
             have hpl : pos.length = axn.length := by
               rw [mapM_some_length hpos, List.length_zip]; omega
-            have hW := WFP_dropCols h axn (pos.map (·.1)) (hnd axn hax) hlt (by simp [hpl]) (by
+            have hW := WFP_dropCols h axn (pos.map (·.1)) hnd hlt (by simp [hpl]) (by
               intro j h1 h2
               have hz : j < (axn.zip indices).length := by rw [List.length_zip]; omega
               have hpj : j < pos.length := by omega
